@@ -293,7 +293,7 @@ public:
 		std::cout << "fraction bits   : " << to_binary(raw, true) << std::endl;
 #endif
 		// saturate to minpos/maxpos with uncertainty bit set to 1
-		if (exponent > MAX_EXP) {
+		if (exponent >= MAX_EXP) { // MAX_EXP is the first scale beyond the largest binade
 			if (s) maxneg(); else maxpos(); // saturate the maxpos or maxneg
 			this->set(0);
 			return *this;
@@ -392,6 +392,12 @@ public:
 		bits |= raw;
 		bits &= 0xFFFF'FFFEu;
 		bits |= (ubit ? 0x1u : 0x0u);
+		if constexpr (nbits <= 32) {
+			// a source above maxpos whose truncated fraction is all ones would land on the inf/nan patterns: it belongs to the open interval above maxpos
+			constexpr uint32_t magnitudeMask = static_cast<uint32_t>((1ull << (nbits - 1ull)) - 1ull);
+			constexpr uint32_t maxposBits = magnitudeMask & ~0x3u;
+			if ((bits & magnitudeMask) > (maxposBits | 0x1u)) bits = (bits & ~magnitudeMask) | maxposBits | 0x1u;
+		}
 		if constexpr (1 == nrBlocks) {
 			_block[MSU] = bt(bits);
 		}
@@ -453,7 +459,7 @@ public:
 		std::cout << "fraction bits   : " << to_binary(raw, true) << std::endl;
 #endif
 		// saturate to minpos/maxpos with uncertainty bit set to 1
-		if (exponent > MAX_EXP) {	
+		if (exponent >= MAX_EXP) { // MAX_EXP is the first scale beyond the largest binade	
 			if (s) maxneg(); else maxpos(); // saturate the maxpos or maxneg
 			this->set(0); // and set the uncertainty bit to reflect it is (maxpos, inf) or (maxneg, -inf)
 			return *this;
@@ -544,6 +550,12 @@ public:
 		bits |= raw;
 		bits &= 0xFFFF'FFFF'FFFF'FFFE;
 		bits |= (ubit ? 0x1 : 0x0);
+		if constexpr (nbits <= 64) {
+			// a source above maxpos whose truncated fraction is all ones would land on the inf/nan patterns: it belongs to the open interval above maxpos
+			constexpr uint64_t magnitudeMask = (nbits == 64 ? 0x7FFF'FFFF'FFFF'FFFFull : ((1ull << (nbits - 1ull)) - 1ull));
+			constexpr uint64_t maxposBits = magnitudeMask & ~0x3ull;
+			if ((bits & magnitudeMask) > (maxposBits | 0x1ull)) bits = (bits & ~magnitudeMask) | maxposBits | 0x1ull;
+		}
 		if constexpr (nrBlocks == 1) {
 			_block[MSU] = bt(bits);
 		}
